@@ -90,3 +90,42 @@ func VfH_C09_font_avar() {
 	vfCover("mapped", nMaps > 0 && nAxes > 0)
 	vfReach("end")
 }
+
+// H-C09-font-tuple: tupleVariation.calculateScalar (gvar / cvar interpolation factor) with the peak and
+// intermediate tuples of the 'gvar' table (its own axis count) against coordinates whose length comes from
+// 'fvar' or from the caller (Face.SetCoords): every combination of lengths and values must be total.
+func VfH_C09_font_tuple() {
+	nCoords := vfChoice("nCoords", 4)
+	nPeak := vfChoice("nPeak", 4)
+	coords := make([]VarCoord, nCoords)
+	for i := range coords {
+		coords[i] = VarCoord(vfI16("coord"))
+	}
+	var t tupleVariation
+	mk := func(n int, name string) []tables.Coord {
+		out := make([]tables.Coord, n)
+		for i := range out {
+			out[i] = tables.Coord(vfI16(name))
+		}
+		return out
+	}
+	var shared [][]VarCoord
+	var sharedIdx []int
+	switch vfChoice("peakKind", 3) {
+	case 0: // embedded peak tuple
+		t.PeakTuple.Values = mk(nPeak, "peak")
+	case 1: // shared tuple 0, no cached axis
+		shared = [][]VarCoord{mk(nPeak, "shared")}
+		sharedIdx = []int{-1}
+	case 2: // shared tuple 0 with a cached single active axis
+		shared = [][]VarCoord{mk(nPeak, "shared")}
+		sharedIdx = []int{vfInt("activeAxis", 0, 3)}
+		vfAssume(sharedIdx[0] < nPeak) // computed by newGvar from the shared tuple itself
+	}
+	if vfBool("intermediate") {
+		t.IntermediateTuples[0].Values = mk(nPeak, "start")
+		t.IntermediateTuples[1].Values = mk(nPeak, "end")
+	}
+	t.calculateScalar(coords, shared, sharedIdx)
+	vfReach("end")
+}
